@@ -2,12 +2,32 @@
 NOTES = ('Every check: full Coq build (no -vos), proof log of props/<ID>.v, then implementation vs extracted model (tie) '
          'and implementation vs extracted reference (monitor) on corpus + generated cases. See DESIGN.md.')
 NOT_APPLICABLE = {}
+NOTE_STD = ('Trusted: Coq 8.16.1 kernel, extraction (ExtrOcamlBasic only), OCaml driver, the Go/Python harness and its generators, '
+            'and the hand-written model, which is tied to /repo only by the per-run correspondence (differential testing, not proof). No axioms: every theorem prints Closed under the global context.')
 CHECKS = {
+ 'C02': dict(
+   text=('Theorems about the literal model of RunCycle/Run/SpawnWarrior/processQueue (model/Sim.v): under the invariant and C01\'s guards, one RunCycle is exactly one cycle of the reference '
+         'round-robin scheduler (spec/Mars.v over Emi94) or a no-op when the battle is over; Run equals iterate-until-finished and terminates within cycles-left+1 iterations; spawn loads at (off+i) mod M; '
+         'the ring buffer is a bounded FIFO. Proved by induction over the warrior loop and over the remaining cycles. Every run ties the model to gmars on generated battles (stepping and Run(), first battle and a battle after Reset) and monitors gmars against the extracted reference.'),
+   design_ref='DESIGN.md 5 C02', note=NOTE_STD,
+   technique='Coq refinement proof (simulation relation model->reference scheduler, induction on cycles) + per-run differential correspondence'),
+ 'C04': dict(
+   text=('Theorems about the literal model (uint64 wrap-around included, so limits above the core size are covered): creation is refused or yields the invariant; the invariant (fields < M, queued PCs < M, '
+         'queue length <= P, cycles <= limit, living = #alive, alive <-> tasks) is preserved by AddWarrior, SpawnWarrior, RunCycle and Run for arbitrary well-formed code, and none of them reaches a Panic. '
+         'Proved by induction over operation sequences. Every run sweeps configurations and hostile battles on gmars and evaluates the extracted invariant checker on gmars\' own state after every cycle.'),
+   design_ref='DESIGN.md 5 C04', note=NOTE_STD,
+   technique='Coq invariant proof by induction over operation sequences + per-run correspondence and extracted invariant monitor'),
+ 'C11': dict(
+   text=('Theorems: for every M in 2..2^32, limits 1..M, well-formed core and pc: every cell changed by a step is within floor(W/2) of pc, every queued successor other than pc+1/pc+2 within floor(R/2), '
+         'operands are fetched within floor(R/2), and with R=W=M the step equals the step with limits ignored. Proved on the reference step and transferred to the literal model through C01. '
+         'Every run executes all 7616 forms with limits below the core size on gmars and runs the extracted locality checker on gmars\' before/after cores and queues.'),
+   design_ref='DESIGN.md 5 C11', note=NOTE_STD,
+   technique='Coq proof (frame lemmas + fold bound) transferred through the C01 refinement + per-run correspondence and extracted locality monitor'),
  'C01': dict(
    text=('Theorem about the literal uint64 model of exec/simops/queue (coq/theories/model/Exec.v): for every core size 2<=M<=2^32, limits 1<=R,W<=M, '
          'process limit, well-formed core and pc<M, one step equals the ICWS\'94 reference step (spec/Emi94.v) cell-for-cell and queue element-for-element; '
          'the model is tied to /repo by running gmars and the extracted model on every instruction form on each run, and the extracted reference monitors gmars directly.'),
    design_ref='DESIGN.md 5 C01',
-   note='Trusted: Coq kernel, extraction (ExtrOcamlBasic), the Go/Python harness, the hand-written model (checked against the code by correspondence only). No axioms.',
+   note=NOTE_STD,
    technique='Coq proof of refinement model->reference (case analysis over modes/opcodes/modifiers) + per-run differential correspondence of the extracted model'),
 }
